@@ -813,7 +813,15 @@ class C04(Prop):
             th = threading.Thread(target=run_b, daemon=True)
             st["thread"] = th
             th.start()
-            th.join(10 if _Watchdog.hangs == 0 else 0.75)   # a starved thread on a loaded machine is not a deadlock
+            # the time spent waiting for B is not A's: A's watchdog is suspended meanwhile
+            armed = signal.getitimer(signal.ITIMER_REAL)[0] if _Watchdog.usable else 0
+            if armed:
+                signal.setitimer(signal.ITIMER_REAL, 0)
+            try:
+                th.join(10 if _Watchdog.hangs == 0 else 0.75)   # a starved thread on a loaded machine is not a deadlock
+            finally:
+                if armed:
+                    signal.setitimer(signal.ITIMER_REAL, max(armed, 1.0))
             if th.is_alive():
                 # B waits for something A holds while parked.  Not yet a deadlock: A goes on (with bounded waits); if A then
                 # needs what B holds nobody can move (`deadlock` for A), otherwise B simply finishes after A
